@@ -90,6 +90,9 @@ def monitor(cfg, events, trace, obs):
                 for o in outs:
                     if o[0] == L.OUT_START_D and o[1] == 1 and o[2] != ret[-1][1]:
                         bad.append(("C13_quiescent_after_stop", i, "start Deferred fired with %d, stop() returned %d" % (o[2], ret[-1][1])))
+                    if o[0] == L.OUT_START_D and o[1] == 0:
+                        # C13_start_once / C13_quiescent_after_stop: the cancellations stop() itself causes are not failures of the consumer
+                        bad.append(("C13_start_once", i, "stop() made the start Deferred FAIL (failure kind %d) instead of firing it with last_processed_offset %d" % (o[2], ret[-1][1])))
                 if shut_pending:
                     bad.append(("C13_shutdown_once", i, "stop() returned while a shutdown Deferred is still pending"))
                 startd, stopped_clean = None, True
